@@ -52,6 +52,9 @@ def lwe_groups(tag, tier='quick'):
     gs = []
     for fn in ['lweClear', 'lweCopy', 'lweNegate', 'lweNoiselessTrivial', 'lweAddTo', 'lweSubTo']:
         gs.append(Group('%s.%s' % (tag, fn), 'c14_lwe.c', 'h_' + fn, extract=[(LF, fn)], enforce=fn, loops=True, replay=('lwe', fn)))
+    for fn in ['lweNegate', 'lweCopy']:
+        gs.append(Group('%s.%s.inplace' % (tag, fn), 'c14_lwe.c', 'h_' + fn, extract=[(LF, fn)], enforce=fn, loops=True, defines={'KNOB_ALIAS': None},
+                        replay=('lwe', fn), instance={'aliasing': 'result == sample'}))
     gs.append(Group('%s.lwePhase.safety' % tag, 'c14_lwe.c', 'h_lwePhase', extract=[(LF, 'lwePhase')], enforce='lwePhase', loops=True, replay='pairing',
                     note='memory safety and frame for every n; the value is decided by the bounded pairing check (C03)'))
     # multiply variants: one contract, discharged in slices (coordinate clause / variance clause)
@@ -233,7 +236,7 @@ def boot_groups(tag):
     gs = []
     for fft, f, suf in [(1, BF, '_FFT'), (0, BN_, '')]:
         gs.append(Group('%s.blindRotate%s' % (tag, suf), 'c04_bootstrap.c', 'h_blindRotate', extract=[(f, 'tfhe_blindRotate' + suf)], loops=True,
-                        defines={'FFT': fft, 'H_BLINDROTATE': None}, cbmc=['--memory-leak-check']))
+                        defines={'FFT': fft, 'H_BLINDROTATE': None}, cbmc=['--memory-leak-check'], replay=('blind', fft)))
         gs.append(Group('%s.MuxRotate%s' % (tag, suf), 'c04_bootstrap.c', 'h_MuxRotate', extract=[(f, 'tfhe_MuxRotate' + suf)],
                         defines={'FFT': fft, 'H_MUXROTATE': None}))
         gs.append(Group('%s.blindRotateAndExtract%s' % (tag, suf), 'c04_bootstrap.c', 'h_blindRotateAndExtract',
@@ -448,6 +451,7 @@ def c15_groups(tier):
         dz = [g for g in dz if ('TLweDecompH' not in g.name and ('l=3.Bgbit=7' in g.name or 'l=2.Bgbit=10' in g.name or 'l=1.Bgbit=8' in g.name)) or 'TLweDecompH.l=2.Bgbit=10.k=1' in g.name]
     gs += dz
     gs += [g for g in tlwe_groups('C15', tier) if 'Extract' in g.name]
+    gs += [g for g in lwe_groups('C15', tier) if 'inplace' in g.name]      # bootsNOT(x,x) / bootsCOPY(x,x): the in-place linear operation
     gs.append(StaticGroup('C15.static.no_rng', rng_scan))
     return gs
 
@@ -502,7 +506,7 @@ def c03_groups(tier, tag='C03'):
     Ms = [2, 3, 4, 5, 7, 8, 16, 1000, 1024, 2048] if tier == 'quick' else sorted(set(C13_LISTED[:-1] + list(range(2, 65)) + [100, 255, 256, 257, 4095, 4097, 32767]))
     for M in Ms:
         gs.append(Group('%s.decode.M=%d' % (tag, M), 'c03_encrypt.c', 'h_decode', extract=[(NF, 'modSwitchToTorus32'), (NF, 'approxPhase')],
-                        defines={'H_DECODE': None, 'VERIF_MSIZE': '%du' % M}, instance={'Msize': M}))
+                        defines={'H_DECODE': None, 'VERIF_MSIZE': '%du' % M}, instance={'Msize': M}, replay='numeric'))
     # noiseless trivial samples: all-zero mask, b = mu (C14 contract enforced on the real body)
     gs.append(Group(tag + '.dep.lweNoiselessTrivial', 'c14_lwe.c', 'h_lweNoiselessTrivial', extract=[(LF, 'lweNoiselessTrivial')], enforce='lweNoiselessTrivial', loops=True))
     return gs
